@@ -36,7 +36,7 @@ var c17TreeCfg = h.TreeCfg{
 	MaxEntries: 12, MaxDepth: 3, Names: []string{"a", "b", "c", "ab", "a-b", "é", "日本", "x y", "d", "sub"},
 	Kinds:  []h.Kind{h.KFile, h.KFile, h.KFile, h.KSymlink, h.KFifo, h.KChar, h.KBlock},
 	Xattrs: true, XattrNS: []string{"user.", "trusted."}, Hardlinks: true, SpecialLinks: true, BigFiles: true, LongNames: true,
-	SymTargets: []string{"a", "../b", "/abs/target", "dangling", strings.Repeat("t", 120)},
+	SymTargets: []string{"a", "../b", "/abs/target", "dangling", strings.Repeat("t", 120)}, UncleanTargets: true,
 }
 
 func genC17(t *rapid.T) *c17Case {
